@@ -51,7 +51,18 @@ class Q:
     def __mul__(self, o):
         if isinstance(o, Q):
             raise TypeError('Q*Q would be nonlinear')
+        with NoTracing():
+            isf = type(o) is float
+        if isf:
+            import fractions
+            fr = fractions.Fraction(o)
+            return Q(self.n * fr.numerator, self.d * fr.denominator)
         return Q(self.n * o, self.d)
+
+    def __index__(self):
+        if self.d != 1:
+            raise TypeError('Q is not integral')
+        return self.n.__index__()
 
     __rmul__ = __mul__
 
